@@ -14,6 +14,7 @@
  * limitations under the License.
  */
 
+#include <unifex/detail/verif_hooks.hpp>
 #include <unifex/config.hpp>
 
 #if !UNIFEX_NO_LIBURING
@@ -456,6 +457,7 @@ void io_uring_context::run_impl(const bool& shouldStop) {
           minCompletionCount,
           pending_operation_count());
 
+      UNIFEX_VERIF_POINT(444);
       int result = io_uring_enter(
           iouringFd_.get(),
           sqUnflushedCount_,
@@ -498,6 +500,7 @@ void io_uring_context::schedule_local(operation_queue ops) noexcept {
 
 void io_uring_context::schedule_remote(operation_base* op) noexcept {
   bool ioThreadWasInactive = remoteQueue_.enqueue(op);
+  UNIFEX_VERIF_POINT(441);
   if (ioThreadWasInactive) {
     // We were the first to queue an item and the I/O thread is not
     // going to check the queue until we signal it that new items
@@ -643,7 +646,9 @@ bool io_uring_context::try_register_remote_queue_notification() noexcept {
   // Check that we haven't already hit the limit of pending
   // I/O completion events.
   const auto populateRemoteQueuePollSqe = [this](io_uring_sqe& sqe) noexcept {
+    UNIFEX_VERIF_POINT(442);
     auto queuedItems = remoteQueue_.try_mark_inactive_or_dequeue_all();
+    UNIFEX_VERIF_POINT(443);
     if (!queuedItems.empty()) {
       schedule_local(std::move(queuedItems));
       return false;
@@ -705,6 +710,7 @@ void io_uring_context::update_timers() noexcept {
       LOGX("dequeued elapsed timer %p\n", (void*)item);
 
       if (item->canBeCancelled_) {
+        UNIFEX_VERIF_POINT(445);
         auto oldState = item->state_.fetch_add(
             schedule_at_operation::timer_elapsed_flag,
             std::memory_order_acq_rel);
